@@ -19,19 +19,19 @@ import (
 
 // e3Env bundles what the E3 roots need.
 type e3Env struct {
-	c     *Ctx
-	p     *core.Program
-	a     *Anchors
-	tabs  *tables.Tables
-	disp  *tables.Dispatch
+	c        *Ctx
+	p        *core.Program
+	a        *Anchors
+	tabs     *tables.Tables
+	disp     *tables.Dispatch
 	closedMu sync.Mutex
 	closed   map[string]closedVal
-	stT   types.Type // SQL state struct
-	tokT  types.Type
-	h5T   types.Type
-	k     int
-	trace bool
-	resid map[string]bool // rule|function|construct of the listed residuals
+	stT      types.Type // SQL state struct
+	tokT     types.Type
+	h5T      types.Type
+	k        int
+	trace    bool
+	resid    map[string]bool // rule|function|construct of the listed residuals
 }
 
 // unlistedFailures counts the undischarged obligations of an engine that are not listed residuals.
@@ -71,6 +71,7 @@ func (env *e3Env) runEscalating(cfg absint.Config, fn *ssa.Function, setup func(
 			c2.ResultCap = cfg.ResultCap << uint(attempt)
 		}
 		c2.MaxLP = 450000
+		c2.MaxInline = 80000 // code cut into many small helpers needs more inlinings for the same paths
 		e2 := absint.NewEngine(env.p, c2)
 		e2.RunRoot(fn, setup)
 		if b2 := env.unlistedFailures(e2); b2 < bad {
@@ -188,8 +189,15 @@ func (env *e3Env) config() absint.Config {
 		if g == nil {
 			continue
 		}
-		if sl, ok := g.Type().Underlying().(*types.Pointer).Elem().Underlying().(*types.Slice); ok {
-			if b, ok := sl.Elem().Underlying().(*types.Basic); ok && b.Kind() == types.Uint8 {
+		var elT types.Type
+		switch u := g.Type().Underlying().(*types.Pointer).Elem().Underlying().(type) {
+		case *types.Slice:
+			elT = u.Elem()
+		case *types.Array:
+			elT = u.Elem()
+		}
+		if elT != nil {
+			if b, ok := elT.Underlying().(*types.Basic); ok && b.Kind() == types.Uint8 {
 				if vals, err := tables.EvalByteTable(p, name); err == nil {
 					cfg.TableLens[name] = int64(len(vals))
 					cfg.TableVals[name] = vals
